@@ -927,69 +927,90 @@ D_HEADERS = ((), ("REMARK-generated-by", "REMARK-total-charge"),
              ("REMARK-numbers-far",))
 
 
-def run_dump(case, col):
-    """io.dump_apbs on harness-written files (the seam under --apbs-input)."""
+def dump_one(atoms, layout, hdr, name, eol, col, case):
+    """io.dump_apbs on one harness-written file.  With non-atom lines the
+    written input must be the one obtained without them."""
     from pdb2pqr import io as pio
     from pdb2pqr import psize
 
+    lines, lctx = pqr_lines(layout, atoms)
+    if lines is None:
+        col.events["skipped:fixed-column-overflow"] += 1
+        return
+    lo4, hi4 = hull(atoms)
+    lo = [v / 1e4 for v in lo4]
+    hi = [v / 1e4 for v in hi4]
+    d = engine.scratch_dir()
+    pqr = d / name
+    inp = d / "c17-dump.in"
+
+    def dump(body):
+        with open(pqr, "w", newline="") as fh:
+            fh.write(eol.join(body) + eol)
+        if inp.exists():
+            inp.unlink()
+        col.evals += 1
+        try:
+            pio.dump_apbs(str(pqr), str(inp))
+        except Exception as exc:
+            return ("raises", type(exc).__name__, str(exc)[:200])
+        if not inp.exists():
+            return ("nofile",)
+        return ("ok", inp.read_text())
+
+    plain = dump(lines + ["TER", "END"])
+    ctx = {"pqr_lines": lines[:4], "name": name, "eol": eol}
+    if plain[0] == "raises":
+        col.fail(f"C17/sizing/raises:{plain[1]}/layout:{lctx}",
+                 {"error": plain[2], "via": "io.dump_apbs", **ctx}, case)
+        col.events[f"dump-raises:{plain[1]}"] += 1
+        return
+    if plain[0] == "nofile":
+        col.fail("C17/dump_apbs/no-input-file-written", ctx, case)
+        return
+    if not hdr:
+        fresh = psize.Psize()
+        try:
+            fresh.parse_lines(lines)
+            fresh.set_all()
+        except Exception:
+            fresh = None
+        check_apbs_input(plain[1], name, lo, hi, fresh, "dump_apbs", col,
+                         case, ctx)
+        return
+    body = [HEADER_KINDS[h] for h in hdr] + lines + ["TER", "END"]
+    got = dump(body)
+    if got == plain:
+        col.events["dump-header-neutral"] += 1
+        return
+    cls = f"raises:{got[1]}" if got[0] == "raises" else "changes:box"
+    blame = hdr[-1]
+    col.fail(_hdr_sig(cls, [blame]),
+             {"inserted": [HEADER_KINDS[h] for h in hdr],
+              "via": "io.dump_apbs", "without": plain[1][:220],
+              "with": got[1][:220] if got[0] == "ok" else list(got), **ctx},
+             case)
+    col.events[f"dump-header-{cls}"] += 1
+
+
+def run_dump(case, col):
+    """io.dump_apbs on harness-written files (the seam under --apbs-input)."""
     scale = SCALES[case["scale"]]
     offset = OFFSETS[case["offset"]]
     layout = case["layout"]
-    d = engine.scratch_dir()
     k = 0
     for sites, radii in D_GEOMS:
         atoms = place(sites, radii, scale, offset)
-        lines, lctx = pqr_lines(layout, atoms)
-        if lines is None:
-            col.events["skipped:fixed-column-overflow"] += 1
-            continue
-        lo4, hi4 = hull(atoms)
-        lo = [v / 1e4 for v in lo4]
-        hi = [v / 1e4 for v in hi4]
         for hdr in D_HEADERS:
             name = D_NAMES[k % len(D_NAMES)]
             eol = "\r\n" if k % 2 else "\n"
             k += 1
-            body = [HEADER_KINDS[h] for h in hdr] + lines + ["TER", "END"]
-            pqr = d / name
-            inp = d / "c17-dump.in"
-            with open(pqr, "w", newline="") as fh:
-                fh.write(eol.join(body) + eol)
-            if inp.exists():
-                inp.unlink()
-            sub = {"kind": "one-dump", "atoms": [list(a) for a in atoms],
-                   "layout": layout, "header": list(hdr), "name": name,
-                   "eol": eol}
-            ctx = {"pqr_lines": body[:6], "name": name}
-            col.evals += 1
             col.nontrivial.add(f"dump|{case['scale']}|{case['offset']}|"
                                f"{layout}|{k}")
-            try:
-                pio.dump_apbs(str(pqr), str(inp))
-            except Exception as exc:
-                if hdr and any(h.startswith("REMARK-numbers") for h in hdr):
-                    sig = (f"C17/header-line/raises:{type(exc).__name__}/"
-                           f"{hdr[0]}/via:dump_apbs")
-                else:
-                    sig = (f"C17/dump_apbs/raises:{type(exc).__name__}/"
-                           f"layout:{lctx}")
-                col.fail(sig, {"error": str(exc)[:200], **ctx}, sub)
-                col.events[f"dump-raises:{type(exc).__name__}"] += 1
-                continue
-            if not inp.exists():
-                col.fail("C17/dump_apbs/no-input-file-written", ctx, sub)
-                continue
-            fresh = psize.Psize()
-            try:
-                fresh.parse_lines(lines)
-                fresh.set_all()
-            except Exception:
-                fresh = None
-            tag = "dump_apbs"
-            if hdr and any(h.startswith("REMARK-numbers") for h in hdr):
-                tag = f"header-line/via:dump_apbs/{hdr[0]}"
-            check_apbs_input(inp.read_text(), name, lo, hi, fresh,
-                             tag, col, sub, ctx)
+            dump_one(atoms, layout, hdr, name, eol, col,
+                     {"kind": "one-dump", "atoms": [list(a) for a in atoms],
+                      "layout": layout, "header": list(hdr), "name": name,
+                      "eol": eol})
 
 
 E_SEQS = {
@@ -1060,9 +1081,9 @@ def run_e2e(case, col):
         str(case.get(k)) for k in ("seq", "file", "ff", "opts", "shift",
                                    "waters", "out")))
     ws = "--whitespace" in opts
-    lay = "ws" if ws else "fixed"
-    big = case.get("shift") in ("+1000", "+5000")
-    lctx = lay + (":coordinate-fills-its-column" if big and not ws else "")
+    lctx = "ws" if ws else "fixed"
+    if not ws and fixed_touch(r.pqr_text or ""):
+        lctx = "fixed:coordinate-fills-its-column"
     ctx = {"argv_opts": opts, "shift": case.get("shift"),
            "pqr_head": (r.pqr_text or "").splitlines()[:3]}
     if not seen.get("entered"):
@@ -1079,7 +1100,7 @@ def run_e2e(case, col):
     if not inp.exists():
         col.fail("C17/e2e/no-input-file-written", ctx, dict(case))
         return
-    atoms = ref_atoms(r.pqr_text, ws)
+    atoms, _ws = ref_atoms(r.pqr_text, ws)
     lo, hi = ref_hull(atoms)
     fresh = psize.Psize()
     col.evals += 1
@@ -1149,45 +1170,8 @@ def run_one(case, col):
 
 
 def run_one_dump(case, col):
-    from pdb2pqr import io as pio
-    from pdb2pqr import psize
-
-    atoms = case["atoms"]
-    lines, lctx = pqr_lines(case["layout"], atoms)
-    hdr = tuple(case["header"])
-    lo4, hi4 = hull(atoms)
-    d = engine.scratch_dir()
-    pqr = d / case["name"]
-    inp = d / "c17-dump.in"
-    body = [HEADER_KINDS[h] for h in hdr] + lines + ["TER", "END"]
-    with open(pqr, "w", newline="") as fh:
-        fh.write(case["eol"].join(body) + case["eol"])
-    if inp.exists():
-        inp.unlink()
-    col.evals += 1
-    numeric = hdr and any(h.startswith("REMARK-numbers") for h in hdr)
-    try:
-        pio.dump_apbs(str(pqr), str(inp))
-    except Exception as exc:
-        if numeric:
-            sig = (f"C17/header-line/raises:{type(exc).__name__}/{hdr[0]}/"
-                   "via:dump_apbs")
-        else:
-            sig = f"C17/dump_apbs/raises:{type(exc).__name__}/layout:{lctx}"
-        col.fail(sig, {"error": str(exc)[:200]}, None)
-        return
-    if not inp.exists():
-        col.fail("C17/dump_apbs/no-input-file-written", {}, None)
-        return
-    fresh = psize.Psize()
-    try:
-        fresh.parse_lines(lines)
-        fresh.set_all()
-    except Exception:
-        fresh = None
-    tag = f"header-line/via:dump_apbs/{hdr[0]}" if numeric else "dump_apbs"
-    check_apbs_input(inp.read_text(), case["name"], [v / 1e4 for v in lo4],
-                     [v / 1e4 for v in hi4], fresh, tag, col, None, {})
+    dump_one(case["atoms"], case["layout"], tuple(case["header"]),
+             case["name"], case["eol"], col, None)
 
 
 # ---------------------------------------------------------------------------
